@@ -25,6 +25,9 @@ class Infeasible(PathAbort):
     pass
 
 
+CONCRETIZE_LIMIT = 12
+
+
 class PathTimeout(PathAbort):
     pass
 
@@ -356,7 +359,18 @@ class Engine:
                 eq = True
                 r2 = self._check(term != v)
                 if r2 != z3.unsat:
-                    self.alts.append((self.taken + [("c", v, False)], r2 == z3.unknown))
+                    # an integer the path does not bound (a symbolic depth or index used as a list position) has infinitely many
+                    # values: after CONCRETIZE_LIMIT of them the enumeration is cut (counted, reported as not covered)
+                    excluded = 0
+                    for dd in reversed(self.taken):
+                        if isinstance(dd, tuple) and dd[0] == "c" and dd[2] is False:
+                            excluded += 1
+                        else:
+                            break
+                    if excluded < CONCRETIZE_LIMIT:
+                        self.alts.append((self.taken + [("c", v, False)], r2 == z3.unknown))
+                    else:
+                        self.n_concretize_cuts = getattr(self, "n_concretize_cuts", 0) + 1
             self.taken.append(("c", v, eq))
             self._add(term == v if eq else term != v)
             self.model = None
